@@ -243,19 +243,90 @@ def _appends_guarded_by_membership(fn: ast.AST, list_name: str) -> bool:
 REGISTRY = "_COMPONENT_REGISTRY"
 
 
+def _local_names(fn: ast.AST) -> Set[str]:
+    """Names bound inside *fn* (assignment / loop / with / except / comprehension targets), parameters excluded."""
+    out: Set[str] = set()
+    for n in ast.walk(fn):
+        if isinstance(n, ast.Name) and isinstance(n.ctx, ast.Store):
+            out.add(n.id)
+        elif isinstance(n, ast.ExceptHandler) and n.name:
+            out.add(n.name)
+    return out
+
+
 def _registry_insertions(repo: Repo, meta_init: ast.AST) -> Tuple[Optional[ast.AST], str]:
     """Decide, by role, how the metaclass inserts the class being created (its first parameter) into containers:
     every such insertion must go into a self-cleaning weak container (WeakSet / WeakValueDictionary) that is a bucket
-    of the registry.  Returns (offending node or None, reason)."""
-    from ..engine import assigned_value
-
+    of the registry; the class (or a tuple / reference object holding it) must not be put into any other
+    process-global container (a queue in front of the registry pins exactly like a strong registry).  Functions the
+    class is handed to are followed.  Returns (offending node or None, reason)."""
     pos = [p.arg for p in meta_init.args.posonlyargs + meta_init.args.args]
     if not pos:
         raise AnalysisError("_SemantivaComponentMeta.__init__ has no parameters")
-    cls_name = pos[0]
+    seen: Set[Tuple[int, Tuple[str, ...]]] = set()
+    total = 0
+    todo: List[Tuple[object, ast.AST, Set[str], int]] = [(repo.module(COMP), meta_init, {pos[0]}, 0)]
+    while todo:
+        mod, fn, tainted, depth = todo.pop(0)
+        key = (id(fn), tuple(sorted(tainted)))
+        if key in seen:
+            continue
+        seen.add(key)
+        site, why, n_sites, callees = _class_insertions_in(repo, mod, fn, set(tainted))
+        if site is not None:
+            return site, why
+        total += n_sites
+        if depth < 3:
+            todo.extend((m, f, t, depth + 1) for m, f, t in callees)
+    if total == 0:
+        raise AnalysisError("_SemantivaComponentMeta.__init__: registry insertion not found")
+    return None, ""
+
+
+def _class_insertions_in(repo: Repo, mod, meta_init: ast.AST, tainted: Set[str]):
+    """One function of the registration path; *tainted* = the names that denote the class being created (or a
+    tuple / list / reference object holding it).  Returns (offending node, reason, sites decided, callees)."""
+    from ..engine import assigned_value
+
+    locals_ = _local_names(meta_init)
+    a = meta_init.args
+    params = {p.arg for p in a.posonlyargs + a.args + a.kwonlyargs} | ({a.vararg.arg} if a.vararg else set()) | ({a.kwarg.arg} if a.kwarg else set())
+
+    def holds(e: Optional[ast.AST]) -> bool:
+        """*e* evaluates to the class itself or to a wrapper object that holds it (tuple / list / dict display,
+        weakref.ref(...), a conditional of those) - not to something merely computed from it (cls.__name__, cls.f())."""
+        if e is None:
+            return False
+        if isinstance(e, ast.Name):
+            return e.id in tainted
+        if isinstance(e, (ast.Tuple, ast.List, ast.Set)):
+            return any(holds(x) for x in e.elts)
+        if isinstance(e, ast.Dict):
+            return any(holds(x) for x in list(e.keys) + list(e.values))
+        if isinstance(e, ast.Starred):
+            return holds(e.value)
+        if isinstance(e, ast.NamedExpr):
+            return holds(e.value)
+        if isinstance(e, ast.IfExp):
+            return holds(e.body) or holds(e.orelse)
+        if isinstance(e, ast.BoolOp):
+            return any(holds(x) for x in e.values)
+        if isinstance(e, ast.Call) and call_attr(e) in ("ref", "proxy", "tuple", "list", "dict", "set", "frozenset", "cast"):
+            return any(holds(x) for x in e.args)
+        return False
+
+    changed = True
+    while changed:  # locals that alias / wrap the class: `entry = (cat, cls)`
+        changed = False
+        for n in ast.walk(meta_init):
+            if isinstance(n, (ast.Assign, ast.AnnAssign)) and holds(getattr(n, "value", None)):
+                for t in (n.targets if isinstance(n, ast.Assign) else [n.target]):
+                    if isinstance(t, ast.Name) and t.id not in tainted:
+                        tainted.add(t.id)
+                        changed = True
 
     def mentions_cls(e: ast.AST) -> bool:
-        return any(isinstance(x, ast.Name) and x.id == cls_name for x in ast.walk(e))
+        return any(isinstance(x, ast.Name) and x.id in tainted for x in ast.walk(e))
 
     def is_registry(e: ast.AST) -> bool:
         if isinstance(e, ast.Name) and e.id != REGISTRY:
@@ -291,7 +362,18 @@ def _registry_insertions(repo: Repo, meta_init: ast.AST) -> Tuple[Optional[ast.A
             vals = assigned_value(meta_init, e.id)
             if not vals:
                 return None
-            kinds = [bucket_weak(v, depth + 1) for v in vals if not (isinstance(v, ast.Constant) and v.value is None)]
+            # a container created here is a bucket of the registry only if it is stored into the registry
+            # (`b = REG[k] = set()`, `REG[k] = b`); otherwise it is local bookkeeping that dies with the call
+            stored_names = {b.id for b in bucket_values if isinstance(b, ast.Name)}
+            kinds = []
+            for v in vals:
+                if isinstance(v, ast.Constant) and v.value is None:
+                    continue
+                fresh = is_weak_ctor(v) or isinstance(v, (ast.List, ast.Dict, ast.Set, ast.ListComp, ast.DictComp, ast.SetComp)) or isinstance(v, ast.Call) and call_attr(v) in CONTAINER_CALLS
+                if fresh and not (e.id in stored_names or any(v is b for b in bucket_values)):
+                    kinds.append(None)
+                else:
+                    kinds.append(bucket_weak(v, depth + 1))
             if any(k is False for k in kinds):
                 return False
             return True if kinds and all(k is True for k in kinds) else None
@@ -305,35 +387,137 @@ def _registry_insertions(repo: Repo, meta_init: ast.AST) -> Tuple[Optional[ast.A
             return False
         return None
 
+    def process_global(e: ast.AST, depth: int = 0) -> Optional[Tuple[str, Optional[ast.AST]]]:
+        """(dotted name, declared value or None) when the container expression *e* denotes an object that is not
+        local to this call - a module-level name or a class-level attribute reached through one; None for locals,
+        parameters and attributes of the class being created."""
+        if depth > 4:
+            return None
+        if isinstance(e, ast.Subscript) or isinstance(e, ast.Call) and isinstance(e.func, ast.Attribute) and e.func.attr in ("setdefault", "get", "__getitem__"):
+            # a bucket of a process-global map: `_BY_KIND.setdefault(kind, [])`, `_BY_KIND[kind]`
+            g = process_global(e.value if isinstance(e, ast.Subscript) else e.func.value, depth + 1)
+            if g is None:
+                return None
+            inner = e.args[1] if isinstance(e, ast.Call) and e.func.attr == "setdefault" and len(e.args) > 1 else None
+            return g[0], inner
+        d = dotted_name(e)
+        if d is None:
+            return None
+        head = d.split(".")[0]
+        if head in tainted or head in params:
+            return None
+        if head in locals_:
+            if "." in d:
+                return None
+            for v in assigned_value(meta_init, head):
+                if isinstance(v, (ast.Name, ast.Attribute)) and dotted_name(v) != d:
+                    g = process_global(v, depth + 1)
+                    if g is not None:
+                        return g
+            return None
+        return d, _global_decl(repo, mod, d)
+
     n_sites = 0
     for n in ast.walk(meta_init):
         container = value = None
+        inserted: List[ast.AST] = []
         if isinstance(n, ast.Call) and isinstance(n.func, ast.Attribute) and n.func.attr in GROWERS and any(mentions_cls(a) for a in list(n.args) + [k.value for k in n.keywords]):
             container, value = n.func.value, n
+            inserted = list(n.args) + [k.value for k in n.keywords]
         elif isinstance(n, ast.Assign) and mentions_cls(n.value) and any(isinstance(t, ast.Subscript) for t in n.targets):
             container, value = next(t.value for t in n.targets if isinstance(t, ast.Subscript)), n
+            inserted = [n.value]
         if container is None:
             continue
         if is_registry(container):
             n_sites += 1
             stored = (n.args[1] if isinstance(n, ast.Call) and len(n.args) > 1 else n.value if isinstance(n, ast.Assign) else None)
             if not (isinstance(stored, ast.Call) and call_attr(stored) in ("ref",) + tuple(WEAK_CALLS)):
-                return n, "the class is stored strongly in a slot of the process-global registry: every run's generated node / adapter / shorthand classes stay registered (or, keyed by a name generated classes share, evict each other) for the life of the process"
+                return n, "the class is stored strongly in a slot of the process-global registry: every run's generated node / adapter / shorthand classes stay registered (or, keyed by a name generated classes share, evict each other) for the life of the process", n_sites, []
             continue
         kind = bucket_weak(container)
         if kind is None:
-            continue  # not a registry bucket (super().__init__, local bookkeeping)
+            # not a registry bucket: local bookkeeping is fine, a process-global container is not
+            g = process_global(container)
+            if g is None or not any(holds(x) for x in inserted):
+                continue
+            gname, decl = g
+            direct = isinstance(n, ast.Call) and n.func.attr == "add" and len(n.args) == 1 and isinstance(n.args[0], ast.Name)
+            if is_weak_ctor(decl) and (direct or isinstance(n, ast.Assign)):
+                n_sites += 1  # a weak set / weak-valued map beside the registry: self-cleaning
+                continue
+            n_sites += 1
+            return n, (f"the class being created (or a tuple / reference object holding it) is put into the process-global container `{gname}`"
+                       + (f" (declared `{norm(decl)[:50]}`)" if decl is not None else "")
+                       + ", which is not a self-cleaning weak container: whatever later moves the entries into the weak registry, until then - and for ever in a process "
+                       "that only runs pipelines and never reads the registry - every run's generated node / adapter / shorthand classes stay alive, one entry per class per run"), n_sites, []
         n_sites += 1
         if kind is True and not (isinstance(n, ast.Call) and n.func.attr == "add"):
-            return n, "the class is stored under a key in a weak-valued bucket: generated classes share qualified names, so classes created per run evict each other and the registry - the count C18 is measured by - no longer reflects the live generated classes (component classes are held strongly or keyed by a name generated classes share)"
+            return n, "the class is stored under a key in a weak-valued bucket: generated classes share qualified names, so classes created per run evict each other and the registry - the count C18 is measured by - no longer reflects the live generated classes (component classes are held strongly or keyed by a name generated classes share)", n_sites, []
         if kind is False:
-            inserted = n.args[-1] if isinstance(n, ast.Call) and n.args else None
-            if isinstance(inserted, ast.Call) and call_attr(inserted) == "ref":
-                return n, "a weak *reference object* per created class is appended to a plain container of the process-global registry: the class dies but its dead weakref.ref stays (only a reader that compacts the list removes it), so the registry gains one gc-tracked object per generated class per run"
-            return n, "component classes are held strongly (or keyed by a name generated classes share) in the process-global registry: every run's generated node / adapter / shorthand classes stay registered (or evict each other) for the life of the process"
-    if n_sites == 0:
-        raise AnalysisError("_SemantivaComponentMeta.__init__: registry insertion not found")
-    return None, ""
+            ins = n.args[-1] if isinstance(n, ast.Call) and n.args else None
+            if isinstance(ins, ast.Call) and call_attr(ins) == "ref":
+                return n, "a weak *reference object* per created class is appended to a plain container of the process-global registry: the class dies but its dead weakref.ref stays (only a reader that compacts the list removes it), so the registry gains one gc-tracked object per generated class per run", n_sites, []
+            return n, "component classes are held strongly (or keyed by a name generated classes share) in the process-global registry: every run's generated node / adapter / shorthand classes stay registered (or evict each other) for the life of the process", n_sites, []
+    # functions the class is handed to (helpers the normal form did not inline: public, other module)
+    callees = []
+    for c in calls_in(meta_init):
+        if isinstance(c.func, ast.Attribute) and c.func.attr in GROWERS:
+            continue
+        if not any(holds(x) for x in list(c.args) + [k.value for k in c.keywords]):
+            continue
+        try:
+            targets = repo.resolve_call(mod, c)
+        except Exception:
+            targets = []
+        for tmod, tfn in targets:
+            if not isinstance(tfn, FuncNode) or tfn.name == "__init__" and isinstance(c.func, ast.Attribute) and isinstance(c.func.value, ast.Call):
+                continue  # super().__init__(...)
+            ta = tfn.args
+            tpos = [p.arg for p in ta.posonlyargs + ta.args]
+            deco = {dotted_name(d) for d in tfn.decorator_list}
+            if isinstance(parent(tfn), ast.ClassDef) and "staticmethod" not in deco and tpos and isinstance(c.func, ast.Attribute):
+                tpos = tpos[1:]
+            bound = {p for p, v in zip(tpos, c.args) if holds(v)} | {k.arg for k in c.keywords if k.arg and holds(k.value)}
+            if bound:
+                callees.append((tmod, tfn, bound))
+    return None, "", n_sites, callees
+
+
+def _global_decl(repo: Repo, mod, dotted: str) -> Optional[ast.AST]:
+    """Declared value of the module-level name / class-level attribute *dotted* (imports followed one step)."""
+    head, _, rest = dotted.partition(".")
+
+    def top(m, name):
+        for st in m.tree.body:
+            if isinstance(st, (ast.Assign, ast.AnnAssign)) and getattr(st, "value", None) is not None:
+                tg = st.targets[0] if isinstance(st, ast.Assign) else st.target
+                if isinstance(tg, ast.Name) and tg.id == name:
+                    return st.value
+            if isinstance(st, ast.ClassDef) and st.name == name:
+                return st
+        return None
+
+    node = top(mod, head)
+    if node is None and head in getattr(mod, "imports", {}):
+        target = mod.imports[head]
+        mname, _, sym = target.rpartition(".")
+        for m in repo.modules.values():
+            if m.rel[:-3].replace("/", ".") in (mname, target) or m.rel[:-3].replace("/", ".") + ".__init__" == mname:
+                node = top(m, sym) if m.rel[:-3].replace("/", ".") == mname else None
+                if node is not None:
+                    break
+    for part in [p for p in rest.split(".") if p]:
+        if not isinstance(node, ast.ClassDef):
+            return None
+        nxt = None
+        for st in node.body:
+            if isinstance(st, (ast.Assign, ast.AnnAssign)) and getattr(st, "value", None) is not None:
+                tg = st.targets[0] if isinstance(st, ast.Assign) else st.target
+                if isinstance(tg, ast.Name) and tg.id == part:
+                    nxt = st.value
+        node = nxt
+    return None if isinstance(node, ast.ClassDef) else node
 
 
 def run(repo: Repo, R: Report) -> None:
@@ -349,10 +533,19 @@ def run(repo: Repo, R: Report) -> None:
 
     # ------------------------------------------------------------------ D1
     r_reg = R.rule("C18-D1-registry-cannot-pin-classes", "the metaclass inserts every new component class into the process-global registry through a weak container (or a configuration-keyed slot), so per-run generated node/adapter/shorthand classes do not accumulate", 2)
-    meta_init = nfunc(repo, COMP, "_SemantivaComponentMeta.__init__")
-    site, why = _registry_insertions(repo, meta_init)
-    R.check(site is None, r_reg, COMP, "_SemantivaComponentMeta.__init__", norm(stmt_of(site)) if site is not None else "every insertion of the new class goes into a weak bucket of _COMPONENT_REGISTRY",
-            why, meta_init.lineno)
+    # consts=False: the normaliser substitutes module-level *mutable* literals (`_PENDING: list = []`) when they are only
+    # mutated through a local alias (`q = _PENDING; q.append(x)`), which would turn a process-global queue into a local
+    meta_init = nfunc(repo, COMP, "_SemantivaComponentMeta.__init__", consts=False)
+    deferred: Optional[AnalysisError] = None
+    try:
+        site, why = _registry_insertions(repo, meta_init)
+    except AnalysisError as exc:
+        # the insertion was moved somewhere this rule does not follow: D2 (who grows process-global containers) still
+        # sees where the classes go; the anchor loss is reported only if nothing else locates a violation
+        deferred = exc
+    else:
+        R.check(site is None, r_reg, COMP, "_SemantivaComponentMeta.__init__", norm(stmt_of(site)) if site is not None else "every insertion of the new class goes into a weak bucket of _COMPONENT_REGISTRY",
+                why, meta_init.lineno)
     getter = repo.func(COMP, "get_component_registry")
     rets = [n for n in walk_no_nested(getter) if isinstance(n, ast.Return)]
     ok = bool(rets) and all(not (isinstance(r.value, ast.Name) and r.value.id == "_COMPONENT_REGISTRY") for r in rets)
@@ -374,6 +567,16 @@ def run(repo: Repo, R: Report) -> None:
                         t = st.targets[0] if isinstance(st, ast.Assign) else st.target
                         if isinstance(t, ast.Name):
                             found[(mod.rel, qn, t.id)] = st
+    # a module-level placeholder (`_CACHE = None`) bound to a container under `global` at run time is the same cell
+    for mod, qn, f in repo.all_functions():
+        gl = {nm for n in walk_no_nested(f) if isinstance(n, ast.Global) for nm in n.names}
+        if not gl:
+            continue
+        for n in walk_no_nested(f):
+            if isinstance(n, (ast.Assign, ast.AnnAssign)) and _is_container(getattr(n, "value", None)):
+                for t in (n.targets if isinstance(n, ast.Assign) else [n.target]):
+                    if isinstance(t, ast.Name) and t.id in gl:
+                        found.setdefault((mod.rel, None, t.id), n)
     R.extra["global_containers_scanned"] = len(found)
     for key, decl in sorted(found.items(), key=str):
         rel, cls, name = key
@@ -417,10 +620,33 @@ def run(repo: Repo, R: Report) -> None:
             dn = dotted_name(dec.func if isinstance(dec, ast.Call) else dec) or ""
             if dn in UNBOUNDED_CACHE_DECORATORS:
                 unbounded = dn.endswith("cache") and not dn.endswith("lru_cache") or (isinstance(dec, ast.Call) and isinstance(kwarg(dec, "maxsize") or (dec.args[0] if dec.args else None), ast.Constant) and (kwarg(dec, "maxsize") or dec.args[0]).value is None)
-                takes_objects = len(f.args.args) > (1 if f.args.args and f.args.args[0].arg in ("self", "cls") else 0)
+                # `self` is a key like any other argument (the memo pins every instance it was called on); only the
+                # class of a classmethod is a configuration-determined key
+                fa = f.args
+                keyed = [p.arg for p in fa.posonlyargs + fa.args + fa.kwonlyargs] + ([fa.vararg.arg] if fa.vararg else []) + ([fa.kwarg.arg] if fa.kwarg else [])
+                takes_objects = any(p != "cls" for p in keyed)
                 if unbounded and takes_objects:
                     R.violation(r_glob, mod.rel, qn, f"@{dn}", "an unbounded memo keyed by its arguments keeps every per-run argument object alive", f.lineno)
-    R.ok(r_glob, "semantiva", "<package>", f"stdlib registrars / unbounded caches fed at run time: {n_reg}", "none")
+        # a mutable default argument is created once per process; a function that grows it keeps a process-lifetime
+        # memo / accumulator under a parameter name
+        fa = f.args
+        pos_params = fa.posonlyargs + fa.args
+        with_default = list(zip(pos_params[len(pos_params) - len(fa.defaults):], fa.defaults)) + [(p, d) for p, d in zip(fa.kwonlyargs, fa.kw_defaults) if d is not None]
+        for prm, dflt in with_default:
+            if not _is_container(dflt) or isinstance(dflt, ast.Call) and call_attr(dflt) in WEAK_CALLS | {"WeakKeyDictionary"}:
+                continue
+            rebound = any(isinstance(n, ast.Name) and n.id == prm.arg and isinstance(n.ctx, ast.Store) for n in walk_no_nested(f))
+            grow = None
+            for n in walk_no_nested(f):
+                if isinstance(n, ast.Call) and isinstance(n.func, ast.Attribute) and n.func.attr in GROWERS and isinstance(n.func.value, ast.Name) and n.func.value.id == prm.arg:
+                    grow = grow or n
+                elif isinstance(n, ast.Assign) and any(isinstance(t, ast.Subscript) and isinstance(t.value, ast.Name) and t.value.id == prm.arg for t in n.targets):
+                    grow = grow or n
+            if grow is not None and not rebound:
+                n_reg += 1
+                R.violation(r_glob, mod.rel, qn, f"{prm.arg}={norm(dflt)}: grown by `{norm(stmt_of(grow))[:60]}`",
+                            "a mutable default argument is one object for the life of the process: growing it is a process-global memo / accumulator that keeps every key and value it was given (per-run classes, evaluators, payloads) alive", grow.lineno)
+    R.ok(r_glob, "semantiva", "<package>", f"stdlib registrars / unbounded caches / mutable-default memos fed at run time: {n_reg}", "none")
 
     # ------------------------------------------------------------------ D3
     r_obj = R.rule("C18-D3-long-lived-objects", "orchestrators, Pipeline, transports, drivers, executors and emitters do not grow containers per run (beyond the frozen, bounded ones); every transport.publish has a subscriber that can consume it", 4)
@@ -508,6 +734,8 @@ def run(repo: Repo, R: Report) -> None:
 
     # ------------------------------------------------------------------ D4
     _run_input_read_only(repo, R)
+    if deferred is not None:
+        raise deferred
 
 
 def _spec_roots(repo: Repo) -> Tuple[ast.ClassDef, Dict[str, ast.AST], List[Tuple[ast.AST, ast.Call, Dict[str, str]]]]:
